@@ -159,12 +159,14 @@ pub struct TypeEntry {
     pub run_acct: RunFn,
     /// C03: swap cases on two accounts serialized back to back in one runtime input
     pub run_swap_acct: RunFn,
+    /// C03: the same driver over the repository's own `TestUnderlyingData` (the store of `TestByteSet`)
+    pub run_tbs: RunFn,
 }
 
 fn entry<T: Node + ?Sized>(id: &'static str, rust: &'static str) -> TypeEntry {
     let shape = T::shape();
     let shape_s = shape.print();
-    TypeEntry { id, rust, shape, shape_s, run: run_case::<T, crate::access::Access>, run_swap: run_swap_case::<T, crate::access::Access>, run_acct: run_case::<T, crate::access::AcctBacking>, run_swap_acct: run_swap_case::<T, crate::access::AcctBacking> }
+    TypeEntry { id, rust, shape, shape_s, run: run_case::<T, crate::access::Access>, run_swap: run_swap_case::<T, crate::access::Access>, run_acct: run_case::<T, crate::access::AcctBacking>, run_swap_acct: run_swap_case::<T, crate::access::AcctBacking>, run_tbs: run_case::<T, crate::access::TbsBacking> }
 }
 
 macro_rules! reg {
